@@ -9,13 +9,93 @@ use std::net::{IpAddr, SocketAddr};
 use std::pin::Pin;
 use std::task::{Context, Poll, Waker};
 
-use tokio::io::{AsyncWrite, ReadBuf};
+use tokio::io::{AsyncRead, AsyncWrite, ReadBuf};
+use turmoil_net::shim::tokio::net::tcp::OwnedReadHalf;
 use turmoil_net::shim::tokio::net::{TcpListener, TcpStream, UdpSocket};
 use turmoil_net::{EnterGuard, HostId, KernelConfig, Net, NetstatState, Packet, Proto, Transport};
 
-use crate::ops::{hex, host_v4, host_v6, ip_token, sa_token, Cfg, Op, HOSTS};
+use crate::ops::{hex, host_name, host_v4, host_v6, ip_token, sa_token, Cfg, Op, HOSTS};
+
+/// The same address handed over in one of the forms `ToSocketAddrs` takes: SocketAddr | "ip:port" |
+/// (IpAddr, u16) | (&str, u16) | String | SocketAddrV4/V6 | (Ipv4Addr/Ipv6Addr, u16).
+macro_rules! with_addr_form {
+    ($rule:expr, $ip:expr, $port:expr, |$a:ident| $body:expr) => {{
+        let (ip, port): (IpAddr, u16) = ($ip, $port);
+        let sa = SocketAddr::new(ip, port);
+        let form = $rule % 7;
+        ep(["addr:SocketAddr", "addr:String", "addr:(IpAddr,u16)", "addr:(String,u16)", "addr:&str", "addr:SocketAddrV4/V6", "addr:(Ipv4Addr/Ipv6Addr,u16)"][form as usize]);
+        match form {
+            0 => { let $a = sa; $body }
+            1 => { let $a = format!("{}:{port}", host_str(ip, $rule / 7, true)); $body }
+            2 => { let $a = (ip, port); $body }
+            3 => { let $a = (host_str(ip, $rule / 7, false), port); $body }
+            4 => {
+                let $a: &'static str = Box::leak(format!("{}:{port}", host_str(ip, $rule / 7, true)).into_boxed_str());
+                $body
+            }
+            5 => match sa {
+                SocketAddr::V4(v) => { let $a = v; $body }
+                SocketAddr::V6(v) => { let $a = v; $body }
+            },
+            _ => match ip {
+                IpAddr::V4(v) => { let $a = (v, port); $body }
+                IpAddr::V6(v) => { let $a = (v, port); $body }
+            },
+        }
+    }};
+}
+
+/// The host part of a string address: the DNS name when there is one and `pick` is odd, else the
+/// literal (v6 literals in brackets).
+fn host_str(ip: IpAddr, pick: u64, bracket: bool) -> String {
+    match crate::ops::name_of(ip) {
+        Some(n) if pick % 2 == 1 => {
+            ep("addr:by-name");
+            n
+        }
+        _ => match ip {
+            IpAddr::V4(v) => v.to_string(),
+            IpAddr::V6(v) if bracket => format!("[{v}]"),
+            IpAddr::V6(v) => v.to_string(),
+        },
+    }
+}
 
 type ConnFut = Pin<Box<dyn Future<Output = io::Result<TcpStream>>>>;
+
+/// A stream handle as the application holds it. `ReadOnly` is what is left after the owned write
+/// half was dropped (which shuts the write side down): every op still reaches the socket through
+/// `AsRef<TcpStream>`.
+pub enum Handle {
+    Whole(TcpStream),
+    ReadOnly(OwnedReadHalf),
+}
+
+thread_local! {
+    static EP: std::cell::RefCell<BTreeMap<&'static str, u64>> = const { std::cell::RefCell::new(BTreeMap::new()) };
+}
+
+fn ep(name: &'static str) {
+    EP.with(|m| *m.borrow_mut().entry(name).or_insert(0) += 1);
+}
+
+/// Entry-point counters collected since the last call.
+pub fn take_ep() -> BTreeMap<&'static str, u64> {
+    EP.with(|m| std::mem::take(&mut *m.borrow_mut()))
+}
+
+/// Poll a future exactly once; a pending future is dropped (cancelled).
+fn poll_once<T>(fut: impl Future<Output = T>) -> Poll<T> {
+    let mut fut = Box::pin(fut);
+    fut.as_mut().poll(&mut cx())
+}
+
+fn io_res<T>(p: Poll<io::Result<T>>) -> io::Result<T> {
+    match p {
+        Poll::Ready(r) => r,
+        Poll::Pending => Err(io::ErrorKind::WouldBlock.into()),
+    }
+}
 
 /// A packet on the wire, with the few fields generators look at.
 #[derive(Debug, Clone)]
@@ -40,7 +120,9 @@ pub struct World {
     guard: Option<EnterGuard>,
     hosts: Vec<HostId>,
     pub listeners: BTreeMap<u32, (usize, TcpListener)>,
-    pub streams: BTreeMap<u32, (usize, TcpStream)>,
+    pub streams: BTreeMap<u32, (usize, Handle)>,
+    /// Counts ops per kind: part of the deterministic rule that picks among equivalent entry points.
+    nth: u64,
     pub connecting: BTreeMap<u32, (usize, u32, ConnFut)>,
     pub udps: BTreeMap<u32, (usize, UdpSocket)>,
     pub wire: Vec<WirePkt>,
@@ -162,7 +244,10 @@ impl World {
         let mut net = Net::with_config(kc);
         let mut hosts = Vec::new();
         for h in 0..HOSTS {
-            hosts.push(net.add_host(vec![host_v4(h), host_v6(h)]));
+            // by name (v4: allocated by the crate's DNS, must be the address the trace calls h<h>v4)
+            // and by literal (v6)
+            hosts.push(net.add_host(vec![host_name(h), host_v6(h).to_string()]));
+            assert_eq!(net.lookup(&host_name(h)), host_v4(h), "DNS allocation order");
         }
         let guard = net.enter();
         World {
@@ -170,6 +255,9 @@ impl World {
             hosts,
             listeners: BTreeMap::new(),
             streams: BTreeMap::new(),
+            // start from a hash of the configuration so that cases with the same op skeleton still
+            // spread over the entry points (deterministic: the replay of a case picks the same ones)
+            nth: cfg.line().bytes().fold(0xcbf29ce484222325u64, |h, b| (h ^ b as u64).wrapping_mul(0x100000001b3)) % 9973,
             connecting: BTreeMap::new(),
             udps: BTreeMap::new(),
             wire: Vec::new(),
@@ -231,11 +319,13 @@ impl World {
                 self.connecting.insert(c, (h, s, fut));
                 vec!["pending".into()]
             }
-            Poll::Ready(Ok(st)) => {
+            Poll::Ready(Ok(mut st)) => {
                 let l = st.local_addr().map(sa_token).unwrap_or_else(|e| res_err(&e));
                 let p = st.peer_addr().map(sa_token).unwrap_or_else(|e| res_err(&e));
-                self.streams.insert(s, (h, st));
-                vec![format!("ok local={l} peer={p}")]
+                let mut obs = vec![format!("ok local={l} peer={p}")];
+                obs.extend(Self::xcheck_stream(&mut st, s));
+                self.streams.insert(s, (h, Handle::Whole(st)));
+                obs
             }
             Poll::Ready(Err(e)) => vec![res_err(&e)],
         }
@@ -245,12 +335,23 @@ impl World {
         match op {
             Op::Listen { h, l, ip, port } => {
                 self.cur(h);
-                let mut fut = Box::pin(TcpListener::bind(SocketAddr::new(ip, port)));
-                match fut.as_mut().poll(&mut cx()) {
+                self.nth += 1;
+                let r = with_addr_form!(l as u64 + self.nth, ip, port, |a| poll_once(TcpListener::bind(a)));
+                match r {
                     Poll::Ready(Ok(li)) => {
                         let p = li.local_addr().map(|a| a.port()).unwrap_or(0);
+                        let mut obs = vec![format!("ok port={p}")];
+                        if l % 2 == 1 {
+                            let ttl = 3 + l % 7;
+                            if li.set_ttl(ttl).is_err() || li.ttl().ok() != Some(ttl) {
+                                obs.push("xcheck listener-ttl".into());
+                            }
+                            if li.set_ttl(300).is_ok() {
+                                obs.push("xcheck listener-ttl-range".into());
+                            }
+                        }
                         self.listeners.insert(l, (h, li));
-                        vec![format!("ok port={p}")]
+                        obs
                     }
                     Poll::Ready(Err(e)) => vec![res_err(&e)],
                     Poll::Pending => vec!["pending".into()],
@@ -266,7 +367,10 @@ impl World {
             },
             Op::Connect { h, c, s, ip, port } => {
                 self.cur(h);
-                let fut: ConnFut = Box::pin(TcpStream::connect(SocketAddr::new(ip, port)));
+                self.nth += 1;
+                let fut: ConnFut = with_addr_form!(c as u64 + self.nth, ip, port, |a| Box::pin(async move {
+                    TcpStream::connect(a).await
+                }));
                 self.settle(c, h, s, fut)
             }
             Op::CPoll { c, .. } => match self.connecting.remove(&c) {
@@ -287,78 +391,148 @@ impl World {
                 };
                 let h = *h;
                 self.cur(h);
-                match li.poll_accept(&mut cx()) {
-                    Poll::Ready(Ok((st, peer))) => {
+                // equivalent entry points: poll_accept | accept() polled once
+                self.nth += 1;
+                let r = if (s as u64 + self.nth) % 2 == 0 {
+                    ep("TcpListener::poll_accept");
+                    li.poll_accept(&mut cx())
+                } else {
+                    ep("TcpListener::accept");
+                    poll_once(li.accept())
+                };
+                match r {
+                    Poll::Ready(Ok((mut st, peer))) => {
                         let lo = st.local_addr().map(sa_token).unwrap_or_else(|e| res_err(&e));
-                        self.streams.insert(s, (h, st));
-                        vec![format!("ok local={lo} peer={}", sa_token(peer))]
+                        let mut obs = vec![format!("ok local={lo} peer={}", sa_token(peer))];
+                        if st.peer_addr().ok() != Some(peer) {
+                            obs.push("xcheck accept-peer".into());
+                        }
+                        obs.extend(Self::xcheck_stream(&mut st, s));
+                        self.streams.insert(s, (h, Handle::Whole(st)));
+                        obs
                     }
                     Poll::Ready(Err(e)) => vec![res_err(&e)],
                     Poll::Pending => vec!["pending".into()],
                 }
             }
             Op::Write { s, data } => {
-                let Some((h, st)) = self.streams.get(&s) else {
+                let Some((h, hd)) = self.streams.remove(&s) else {
                     return vec!["badop".into()];
                 };
-                self.cur(*h);
-                match st.try_write(&data) {
+                self.cur(h);
+                self.nth += 1;
+                let (hd, r) = Self::do_write(hd, &data, (data.len() as u64 + s as u64 + self.nth) % 5);
+                self.streams.insert(s, (h, hd));
+                match r {
                     Ok(n) => vec![format!("ok n={n}")],
                     Err(e) => vec![res_err(&e)],
                 }
             }
             Op::Read { s, n } => {
-                let Some((h, st)) = self.streams.get(&s) else {
+                let Some((h, hd)) = self.streams.remove(&s) else {
                     return vec!["badop".into()];
                 };
-                self.cur(*h);
+                self.cur(h);
+                self.nth += 1;
                 let mut buf = vec![0u8; n];
-                match st.try_read(&mut buf) {
+                let (hd, r) = Self::do_read(hd, &mut buf, (n as u64 + s as u64 + self.nth) % 5);
+                self.streams.insert(s, (h, hd));
+                match r {
                     Ok(k) => vec![format!("ok data={}", hex(&buf[..k]))],
                     Err(e) => vec![res_err(&e)],
                 }
             }
             Op::Peek { s, n } => {
-                let Some((h, st)) = self.streams.get(&s) else {
+                let Some((h, hd)) = self.streams.remove(&s) else {
                     return vec!["badop".into()];
                 };
-                self.cur(*h);
+                self.cur(h);
+                self.nth += 1;
                 let mut buf = vec![0u8; n];
-                let mut rb = ReadBuf::new(&mut buf);
-                match st.poll_peek(&mut cx(), &mut rb) {
-                    Poll::Ready(Ok(k)) => vec![format!("ok data={}", hex(&rb.filled()[..k]))],
-                    Poll::Ready(Err(e)) => vec![res_err(&e)],
-                    Poll::Pending => vec!["pending".into()],
+                let (hd, r) = Self::do_peek(hd, &mut buf, (n as u64 + s as u64 + self.nth) % 4);
+                self.streams.insert(s, (h, hd));
+                match r {
+                    Ok(k) => vec![format!("ok data={}", hex(&buf[..k]))],
+                    Err(e) => vec![res_err(&e)],
                 }
             }
             Op::Shutdown { s } => {
-                let Some((h, st)) = self.streams.get_mut(&s) else {
+                let Some((h, hd)) = self.streams.remove(&s) else {
                     return vec!["badop".into()];
                 };
-                let h = *h;
-                turmoil_net::set_current(self.hosts[h]);
-                match Pin::new(st).poll_shutdown(&mut cx()) {
-                    Poll::Ready(Ok(())) => vec!["ok".into()],
-                    Poll::Ready(Err(e)) => vec![res_err(&e)],
-                    Poll::Pending => vec!["pending".into()],
+                self.cur(h);
+                self.nth += 1;
+                let (hd, r) = Self::do_shutdown(hd, (s as u64 + self.nth) % 4);
+                self.streams.insert(s, (h, hd));
+                match r {
+                    Ok(()) => vec!["ok".into()],
+                    Err(e) => vec![res_err(&e)],
                 }
             }
             Op::SDrop { s } => match self.streams.remove(&s) {
-                Some((h, st)) => {
+                Some((h, hd)) => {
                     self.cur(h);
-                    drop(st);
+                    self.nth += 1;
+                    match hd {
+                        // equivalent: plain drop | into_split, forget the write half (no shutdown),
+                        // drop the read half — in either order
+                        Handle::Whole(st) => match (s as u64 + self.nth) % 3 {
+                            0 => {
+                                ep("drop TcpStream");
+                                drop(st)
+                            }
+                            1 => {
+                                ep("into_split+forget+drop(read)");
+                                let (r, w) = st.into_split();
+                                w.forget();
+                                drop(r);
+                            }
+                            _ => {
+                                ep("into_split+drop(read)+forget");
+                                let (r, w) = st.into_split();
+                                drop(r);
+                                w.forget();
+                            }
+                        },
+                        Handle::ReadOnly(r) => {
+                            ep("drop OwnedReadHalf");
+                            drop(r)
+                        }
+                    }
                     vec!["ok".into()]
                 }
                 None => vec!["badop".into()],
             },
             Op::UdpBind { h, u, ip, port } => {
                 self.cur(h);
-                let mut fut = Box::pin(UdpSocket::bind(SocketAddr::new(ip, port)));
-                match fut.as_mut().poll(&mut cx()) {
+                self.nth += 1;
+                let r = with_addr_form!(u as u64 + self.nth, ip, port, |a| poll_once(UdpSocket::bind(a)));
+                match r {
                     Poll::Ready(Ok(so)) => {
                         let p = so.local_addr().map(|a| a.port()).unwrap_or(0);
+                        let mut obs = vec![format!("ok port={p}")];
+                        if u % 2 == 1 {
+                            let ttl = 9 + u % 4;
+                            if so.set_ttl(ttl).is_err() || so.ttl().ok() != Some(ttl) {
+                                obs.push("xcheck udp-ttl".into());
+                            }
+                            if so.set_ttl(256).is_ok() {
+                                obs.push("xcheck udp-ttl-range".into());
+                            }
+                            // SO_BROADCAST only gates broadcast destinations, which no family sends to
+                            if so.broadcast().ok() != Some(false)
+                                || so.set_broadcast(true).is_err()
+                                || so.broadcast().ok() != Some(true)
+                                || so.set_broadcast(false).is_err()
+                            {
+                                obs.push("xcheck udp-broadcast".into());
+                            }
+                        }
+                        if so.peer_addr().is_ok() {
+                            obs.push("xcheck udp-peer-unconnected".into());
+                        }
                         self.udps.insert(u, (h, so));
-                        vec![format!("ok port={p}")]
+                        obs
                     }
                     Poll::Ready(Err(e)) => vec![res_err(&e)],
                     Poll::Pending => vec!["pending".into()],
@@ -369,11 +543,47 @@ impl World {
                     return vec!["badop".into()];
                 };
                 self.cur(*h);
+                self.nth += 1;
                 let buf = vec![0x5au8; len];
-                match so.try_send_to(&buf, SocketAddr::new(ip, port)) {
-                    Ok(n) => vec![format!("ok n={n}")],
-                    Err(e) => vec![res_err(&e)],
-                }
+                let dst = SocketAddr::new(ip, port);
+                // sendto(2) through equivalent entry points: try_send_to | send_to() polled once (in
+                // the address forms) | connect() + try_send | connect() + send() polled once. A
+                // harness-made connect only records the peer (checked by peer_addr; netstat keeps showing
+                // `*` for UDP rows, and no family delivers UDP datagrams, so the peer filter is idle).
+                let mut obs = Vec::new();
+                let r = match (len as u64 + u as u64 + self.nth) % 4 {
+                    0 => {
+                        ep("UdpSocket::try_send_to");
+                        so.try_send_to(&buf, dst)
+                    }
+                    1 => {
+                        ep("UdpSocket::send_to");
+                        with_addr_form!(self.nth / 4, ip, port, |a| io_res(poll_once(so.send_to(&buf, a))))
+                    }
+                    k => {
+                        let c = with_addr_form!(self.nth / 4, ip, port, |a| io_res(poll_once(so.connect(a))));
+                        match c {
+                            Ok(()) => {
+                                if so.peer_addr().ok() != Some(dst) {
+                                    obs.push("xcheck udp-peer".into());
+                                }
+                                if k == 2 {
+                                    ep("UdpSocket::connect+try_send");
+                                    so.try_send(&buf)
+                                } else {
+                                    ep("UdpSocket::connect+send");
+                                    io_res(poll_once(so.send(&buf)))
+                                }
+                            }
+                            Err(e) => Err(e),
+                        }
+                    }
+                };
+                obs.insert(0, match r {
+                    Ok(n) => format!("ok n={n}"),
+                    Err(e) => res_err(&e),
+                });
+                obs
             }
             Op::Egress => {
                 let mut out = Vec::new();
@@ -383,6 +593,9 @@ impl World {
                     let id = self.next_pkt;
                     self.next_pkt += 1;
                     obs.push(pkt_obs(id, &p));
+                    if p.ttl != 64 {
+                        obs.push("xcheck pkt-ttl".into());
+                    }
                     if matches!(p.payload, Transport::Tcp(_)) {
                         self.wire.push(WirePkt { id, pkt: p, held: 0 });
                     }
@@ -439,6 +652,257 @@ impl World {
                     }
                 }
                 obs
+            }
+        }
+    }
+
+    /// Getter / setter round trips (stored-only options must not change behaviour) and address
+    /// getters through the borrowed halves. Any disagreement becomes an extra OBS line.
+    fn xcheck_stream(st: &mut TcpStream, slot: u32) -> Vec<String> {
+        let mut obs = Vec::new();
+        if slot % 2 == 1 {
+            let ttl = 7 + slot % 5;
+            if st.set_nodelay(true).is_err() || st.nodelay().ok() != Some(true) {
+                obs.push("xcheck nodelay".into());
+            }
+            if st.set_ttl(ttl).is_err() || st.ttl().ok() != Some(ttl) {
+                obs.push("xcheck ttl".into());
+            }
+            if st.set_ttl(256).is_ok() {
+                obs.push("xcheck ttl-range".into());
+            }
+        }
+        let (l, p) = (st.local_addr().ok(), st.peer_addr().ok());
+        let (r, w) = st.split();
+        if r.local_addr().ok() != l || w.local_addr().ok() != l || r.peer_addr().ok() != p || w.peer_addr().ok() != p {
+            obs.push("xcheck half-addr".into());
+        }
+        obs
+    }
+
+    /// `send(2)` through one of the equivalent entry points: try_write | AsyncWrite::poll_write |
+    /// borrowed WriteHalf::try_write | borrowed WriteHalf poll_write | owned half (into_split …
+    /// reunite).
+    fn do_write(hd: Handle, data: &[u8], rule: u64) -> (Handle, io::Result<usize>) {
+        match hd {
+            Handle::Whole(mut st) => match rule {
+                0 => {
+                    ep("TcpStream::try_write");
+                    let r = st.try_write(data);
+                    (Handle::Whole(st), r)
+                }
+                1 => {
+                    ep("TcpStream::poll_write");
+                    let r = io_res(Pin::new(&mut st).poll_write(&mut cx(), data));
+                    (Handle::Whole(st), r)
+                }
+                2 => {
+                    ep("WriteHalf::try_write");
+                    let r = {
+                        let (_r, w) = st.split();
+                        w.try_write(data)
+                    };
+                    (Handle::Whole(st), r)
+                }
+                3 => {
+                    ep("WriteHalf::poll_write");
+                    let r = {
+                        let (_r, mut w) = st.split();
+                        io_res(Pin::new(&mut w).poll_write(&mut cx(), data))
+                    };
+                    (Handle::Whole(st), r)
+                }
+                _ => {
+                    let (rh, mut wh) = st.into_split();
+                    let r = if data.len() % 2 == 0 {
+                        ep("OwnedWriteHalf::try_write+reunite");
+                        wh.try_write(data)
+                    } else {
+                        ep("OwnedWriteHalf::poll_write+reunite");
+                        io_res(Pin::new(&mut wh).poll_write(&mut cx(), data))
+                    };
+                    let st = rh.reunite(wh).expect("halves of one stream reunite");
+                    (Handle::Whole(st), r)
+                }
+            },
+            Handle::ReadOnly(rh) => {
+                ep("OwnedReadHalf::as_ref().try_write");
+                let r = rh.as_ref().try_write(data);
+                (Handle::ReadOnly(rh), r)
+            }
+        }
+    }
+
+    /// `recv(2)`: try_read | AsyncRead::poll_read | borrowed ReadHalf::try_read | borrowed ReadHalf
+    /// poll_read | owned half.
+    fn do_read(hd: Handle, buf: &mut [u8], rule: u64) -> (Handle, io::Result<usize>) {
+        fn via_poll<R: AsyncRead + Unpin>(r: &mut R, buf: &mut [u8]) -> io::Result<usize> {
+            let mut rb = ReadBuf::new(buf);
+            match Pin::new(r).poll_read(&mut cx(), &mut rb) {
+                Poll::Ready(Ok(())) => Ok(rb.filled().len()),
+                Poll::Ready(Err(e)) => Err(e),
+                Poll::Pending => Err(io::ErrorKind::WouldBlock.into()),
+            }
+        }
+        match hd {
+            Handle::Whole(mut st) => match rule {
+                0 => {
+                    ep("TcpStream::try_read");
+                    let r = st.try_read(buf);
+                    (Handle::Whole(st), r)
+                }
+                1 => {
+                    ep("TcpStream::poll_read");
+                    let r = via_poll(&mut st, buf);
+                    (Handle::Whole(st), r)
+                }
+                2 => {
+                    ep("ReadHalf::try_read");
+                    let r = {
+                        let (r, _w) = st.split();
+                        r.try_read(buf)
+                    };
+                    (Handle::Whole(st), r)
+                }
+                3 => {
+                    ep("ReadHalf::poll_read");
+                    let r = {
+                        let (mut r, _w) = st.split();
+                        via_poll(&mut r, buf)
+                    };
+                    (Handle::Whole(st), r)
+                }
+                _ => {
+                    let (mut rh, wh) = st.into_split();
+                    let r = if buf.len() % 2 == 0 {
+                        ep("OwnedReadHalf::try_read+reunite");
+                        rh.try_read(buf)
+                    } else {
+                        ep("OwnedReadHalf::poll_read+reunite");
+                        via_poll(&mut rh, buf)
+                    };
+                    let st = rh.reunite(wh).expect("halves of one stream reunite");
+                    (Handle::Whole(st), r)
+                }
+            },
+            Handle::ReadOnly(mut rh) => {
+                ep("OwnedReadHalf::read (write half dropped)");
+                let r = if rule % 2 == 0 { rh.try_read(buf) } else { via_poll(&mut rh, buf) };
+                (Handle::ReadOnly(rh), r)
+            }
+        }
+    }
+
+    /// `recv(MSG_PEEK)`: poll_peek | peek() polled once | borrowed ReadHalf | owned half.
+    fn do_peek(hd: Handle, buf: &mut [u8], rule: u64) -> (Handle, io::Result<usize>) {
+        match hd {
+            Handle::Whole(mut st) => match rule {
+                0 => {
+                    ep("TcpStream::poll_peek");
+                    let mut rb = ReadBuf::new(buf);
+                    let r = io_res(st.poll_peek(&mut cx(), &mut rb));
+                    (Handle::Whole(st), r)
+                }
+                1 => {
+                    ep("TcpStream::peek");
+                    let r = io_res(poll_once(st.peek(buf)));
+                    (Handle::Whole(st), r)
+                }
+                2 => {
+                    let r = {
+                        let (mut r, _w) = st.split();
+                        if buf.len() % 2 == 0 {
+                            ep("ReadHalf::poll_peek");
+                            let mut rb = ReadBuf::new(buf);
+                            io_res(r.poll_peek(&mut cx(), &mut rb))
+                        } else {
+                            ep("ReadHalf::peek");
+                            io_res(poll_once(r.peek(buf)))
+                        }
+                    };
+                    (Handle::Whole(st), r)
+                }
+                _ => {
+                    let (mut rh, wh) = st.into_split();
+                    let r = if buf.len() % 2 == 0 {
+                        ep("OwnedReadHalf::poll_peek+reunite");
+                        let mut rb = ReadBuf::new(buf);
+                        io_res(rh.poll_peek(&mut cx(), &mut rb))
+                    } else {
+                        ep("OwnedReadHalf::peek+reunite");
+                        io_res(poll_once(rh.peek(buf)))
+                    };
+                    let st = rh.reunite(wh).expect("halves of one stream reunite");
+                    (Handle::Whole(st), r)
+                }
+            },
+            Handle::ReadOnly(mut rh) => {
+                let mut rb = ReadBuf::new(buf);
+                let r = io_res(rh.poll_peek(&mut cx(), &mut rb));
+                (Handle::ReadOnly(rh), r)
+            }
+        }
+    }
+
+    /// `shutdown(SHUT_WR)`: AsyncWrite::poll_shutdown on the stream | on the borrowed write half | on
+    /// the owned write half (then reunite) | dropping the owned write half (shutdown_on_drop). The
+    /// last one cannot return its result: it is taken from the abort error a zero-length peek shows
+    /// beforehand (shutdown fails exactly when the connection is aborted), and the handle stays a
+    /// read half from then on.
+    fn do_shutdown(hd: Handle, rule: u64) -> (Handle, io::Result<()>) {
+        match hd {
+            Handle::Whole(mut st) => match rule {
+                0 => {
+                    ep("TcpStream::poll_shutdown");
+                    let r = io_res(Pin::new(&mut st).poll_shutdown(&mut cx()));
+                    (Handle::Whole(st), r)
+                }
+                1 => {
+                    ep("WriteHalf::poll_shutdown");
+                    let r = {
+                        let (_r, mut w) = st.split();
+                        io_res(Pin::new(&mut w).poll_shutdown(&mut cx()))
+                    };
+                    (Handle::Whole(st), r)
+                }
+                2 => {
+                    ep("OwnedWriteHalf::poll_shutdown+reunite");
+                    let (rh, mut wh) = st.into_split();
+                    let r = io_res(Pin::new(&mut wh).poll_shutdown(&mut cx()));
+                    let st = rh.reunite(wh).expect("halves of one stream reunite");
+                    (Handle::Whole(st), r)
+                }
+                _ => {
+                    let mut empty = [0u8; 0];
+                    let mut rb = ReadBuf::new(&mut empty);
+                    let pre = match st.poll_peek(&mut cx(), &mut rb) {
+                        Poll::Ready(Err(e))
+                            if matches!(e.kind(), io::ErrorKind::ConnectionReset | io::ErrorKind::TimedOut) =>
+                        {
+                            Err(e)
+                        }
+                        _ => Ok(()),
+                    };
+                    ep("drop OwnedWriteHalf (shutdown on drop)");
+                    let (rh, wh) = st.into_split();
+                    drop(wh);
+                    (Handle::ReadOnly(rh), pre)
+                }
+            },
+            Handle::ReadOnly(rh) => {
+                // write side already shut by the dropped half: shutdown is idempotent (Ok) unless aborted
+                let mut empty = [0u8; 0];
+                let mut rb = ReadBuf::new(&mut empty);
+                let mut rh = rh;
+                let pre = match rh.poll_peek(&mut cx(), &mut rb) {
+                    Poll::Ready(Err(e))
+                        if matches!(e.kind(), io::ErrorKind::ConnectionReset | io::ErrorKind::TimedOut) =>
+                    {
+                        Err(e)
+                    }
+                    _ => Ok(()),
+                };
+                (Handle::ReadOnly(rh), pre)
             }
         }
     }
